@@ -315,7 +315,8 @@ def gen_link(rng, P, s, li):
     """Packets of one link."""
     link = s.links[li]
     pkts = []
-    orbit = rng.randrange(1, 0xFFFF0000)
+    # (extreme: one link in twelve starts just below the 32-bit orbit roll-over and passes through orbit 0)
+    orbit = rng.randrange(1, 0xFFFF0000) if rng.random() > 0.08 else 0xFFFFFFFF - rng.randrange(0, 3)
     pkt_counter = rng.randrange(256)
     active = its.active_mask(link.lanes)
     if P.superset_lanes:
@@ -329,7 +330,8 @@ def gen_link(rng, P, s, li):
     for h in range(n_hbf):
         orbit += rng.choice([1, 1, 1, 2, 256])
         if orbit > 0xFFFFFFFF:
-            orbit = rng.randrange(1, 1000)
+            orbit = 0 if rng.random() < 0.5 else orbit - 0x100000000
+            s.features.add("orbit:rollover")
         ttype = ORBIT | HB
         if rng.random() < 0.5:
             ttype |= TF
